@@ -2,6 +2,7 @@ package main
 
 import (
 	"fmt"
+	"strings"
 
 	"github.com/andydunstall/piko/pkg/gossip"
 	"verifharness/internal/evid"
@@ -25,11 +26,23 @@ func c17Bulk(run *evid.Run) (cases int) {
 				owner := gossip.VNewClusterState("nX", "10.0.0.1:7000", nopFD{}, sharedGossipMetrics, nopWatcher{})
 				obs := gossip.VNewClusterState("nO", "10.0.0.2:7000", nopFD{}, sharedGossipMetrics, nopWatcher{})
 				ref := map[string]string{}
+				// the owner also relays a third node whose entries have different
+				// sizes: the observer is behind on two nodes at once
+				owner.ApplyDelta(gossip.VDelta{{ID: "nY", Addr: "10.0.0.3:7000", Entries: []gossip.Entry{
+					{Key: "p0", Value: "v", Version: 1},
+					{Key: "p1", Value: "a-value-that-is-quite-a-bit-longer-than-the-others-around-it-0123456789", Version: 2},
+					{Key: "p2", Value: "v", Version: 3},
+				}}})
 				write := func(from, to int) {
 					for i := from; i < to; i++ {
 						k := fmt.Sprintf("key-%04d", i)
-						owner.UpsertLocal(k, fmt.Sprint(i))
-						ref[k] = fmt.Sprint(i)
+						v := fmt.Sprint(i)
+						if i%20 == 7 {
+							// now and then a value much larger than its neighbours
+							v = fmt.Sprintf("%d-%s", i, strings.Repeat("L", 300))
+						}
+						owner.UpsertLocal(k, v)
+						ref[k] = v
 					}
 					for i := from; i < to; i += 3 {
 						k := fmt.Sprintf("key-%04d", i)
@@ -91,6 +104,89 @@ func c17Bulk(run *evid.Run) (cases int) {
 				}
 				if got, want := mapStr(live(ns)), mapStr(ref); got != want {
 					run.Violation("C17", "observer-differs-from-owner", fmt.Sprintf("%s: the observer shows %d live keys of the owner, the owner has %d (observer at version %d, owner at %d)", desc, len(live(ns)), len(ref), ns.Version, owner.LocalNode().Version), map[string]any{"engine": "E3-C17-bulk", "n": n, "compact": compact, "path": path})
+					continue
+				}
+				if len(obs.Nodes()) != 3 {
+					run.Violation("C17", "observer-differs-from-owner", fmt.Sprintf("%s: the observer ends up knowing %d nodes, there are 3", desc, len(obs.Nodes())), map[string]any{"engine": "E3-C17-bulk", "n": n, "compact": compact, "path": path})
+				}
+			}
+		}
+	}
+	return cases
+}
+
+// c17TwoNodes: an observer that is behind on two nodes at once - the owner
+// (entries of very different sizes) and a node the owner relays - and catches
+// up through datagrams of every size in a sweep. The digest lists the owner
+// first, so its delta comes first in the datagram and the relayed node's after
+// it. Whatever fits, the observer ends with exactly the owner's live keys and
+// knows exactly the nodes there are.
+func c17TwoNodes(run *evid.Run) (cases int) {
+	for max := 180; max <= 900; max += 9 {
+		cases++
+		owner := gossip.VNewClusterState("nX", "10.0.0.1:7000", nopFD{}, sharedGossipMetrics, nopWatcher{})
+		obs := gossip.VNewClusterState("nO", "10.0.0.2:7000", nopFD{}, sharedGossipMetrics, nopWatcher{})
+		ref := map[string]string{}
+		for i, v := range []string{"1", strings.Repeat("B", 300), "3", "", strings.Repeat("C", 120), "6"} {
+			k := fmt.Sprintf("k%d", i)
+			owner.UpsertLocal(k, v)
+			ref[k] = v
+		}
+		owner.DeleteLocal("k2")
+		delete(ref, "k2")
+		owner.ApplyDelta(gossip.VDelta{{ID: "nY", Addr: "10.0.0.3:7000", Entries: []gossip.Entry{
+			{Key: "p0", Value: "v", Version: 1}, {Key: "p1", Value: "w", Version: 2}, {Key: "p2", Value: "x", Version: 3},
+		}}})
+		desc := fmt.Sprintf("max packet size %d: observer behind on the owner (entry sizes 1..300 bytes) and on a relayed node", max)
+		msg := ""
+		for round := 0; round < 60 && msg == ""; round++ {
+			dig := gossip.VDigest{}
+			for _, id := range []string{"nX", "nY"} {
+				e := gossip.VDigestEntry{ID: id}
+				if ns, ok := obs.Node(id); ok {
+					e.Version = ns.Version
+				}
+				dig = append(dig, e)
+			}
+			d := owner.Delta(dig, false)
+			if len(d) == 0 {
+				break
+			}
+			b, err := gossip.VEncodeDelta(gossip.VDeltaHeader{NodeID: "nX", Addr: "10.0.0.1:7000"}, d, max)
+			if err != nil {
+				msg = "encode: " + err.Error()
+				break
+			}
+			_, dec, err := gossip.VDecodeDelta(b)
+			if err != nil {
+				msg = "the observer cannot decode the owner's datagram: " + err.Error()
+				break
+			}
+			obs.ApplyDelta(dec)
+		}
+		fail := func(m string) {
+			run.Violation("C17", "observer-differs-from-owner", desc+": "+m, map[string]any{"engine": "E3-C17-bulk", "two_nodes_max": max})
+		}
+		if msg != "" {
+			fail(msg)
+			continue
+		}
+		for _, md := range obs.Nodes() {
+			if md.ID != "nO" && md.ID != "nX" && md.ID != "nY" {
+				fail(fmt.Sprintf("the observer now knows a node %q that does not exist", md.ID))
+			}
+		}
+		if ns, ok := obs.Node("nX"); ok {
+			// whatever arrived so far is the owner's: no foreign keys, no wrong values
+			for k, v := range live(ns) {
+				if want, there := ref[k]; !there || want != v {
+					fail(fmt.Sprintf("the observer shows %s=%q for the owner, which the owner never wrote (or deleted)", k, v))
+					break
+				}
+			}
+			if ns.Version == owner.LocalNode().Version {
+				if got, want := mapStr(live(ns)), mapStr(ref); got != want {
+					fail(fmt.Sprintf("the observer is at the owner's version %d but shows %s, the owner has %s", ns.Version, got, want))
 				}
 			}
 		}
